@@ -62,6 +62,10 @@ type world struct {
 	bal0   []sdkmath.Int
 	spent  []sdkmath.Int
 	staked common.Address
+	distr0  sdkmath.Int       // balance of the distribution module account at genesis
+	comm0   sdkmath.LegacyDec // community pool at genesis
+	supply0 sdkmath.Int       // supply of the staking denom at genesis (after the users were funded)
+	minted  sdkmath.Int       // coins minted by the harness since (reward allocations)
 	dead   bool     // a monitor fired: the rest of this history is not meaningful
 	lastRet []byte  // return data of the last successful eth transaction
 	seq    []string // op lines of this history including the one being executed (replay of a violation)
@@ -86,10 +90,36 @@ func newWorld(t *testing.T, out *hx.Out, nVal, nUsers int) *world {
 		w.bal0 = append(w.bal0, s.App.BankKeeper.GetBalance(s.Ctx, a, fxtypes.DefaultDenom).Amount)
 		w.spent = append(w.spent, sdkmath.ZeroInt())
 	}
+	w.distr0 = w.moduleBal(distrtypes.ModuleName)
+	w.comm0 = w.communityPool()
+	w.supply0 = s.App.BankKeeper.GetSupply(s.Ctx, fxtypes.DefaultDenom).Amount
+	w.minted = sdkmath.ZeroInt()
 	return w
 }
 
+func (w *world) moduleBal(name string) sdkmath.Int {
+	addr := w.s.App.AccountKeeper.GetModuleAddress(name)
+	return w.s.App.BankKeeper.GetBalance(w.s.Ctx, addr, fxtypes.DefaultDenom).Amount
+}
+
+func (w *world) communityPool() sdkmath.LegacyDec {
+	fp, err := w.s.App.DistrKeeper.FeePool.Get(w.s.Ctx)
+	if err != nil {
+		return sdkmath.LegacyZeroDec()
+	}
+	return fp.CommunityPool.AmountOf(fxtypes.DefaultDenom)
+}
+
 func (w *world) ctx() sdk.Context { return w.s.Ctx }
+
+// syncHeaderInfo: BaseApp sets the block header and the header info together; the redelegation queue reads the time
+// from the header info, the unbonding queue from the block header
+func (w *world) syncHeaderInfo() {
+	hi := w.s.Ctx.HeaderInfo()
+	hi.Height = w.s.Ctx.BlockHeight()
+	hi.Time = w.s.Ctx.BlockTime()
+	w.s.Ctx = w.s.Ctx.WithHeaderInfo(hi)
+}
 
 func (w *world) accIdx(a sdk.AccAddress) int {
 	for i, x := range w.accs {
@@ -168,7 +198,9 @@ func (w *world) dump() string {
 		outst, _ := app.DistrKeeper.GetValidatorOutstandingRewards(ctx, v)
 		com, _ := app.DistrKeeper.GetValidatorAccumulatedCommission(ctx, v)
 		status := "B"
-		if !val.IsBonded() {
+		if val.IsUnbonded() {
+			status = fmt.Sprintf("N%d", val.UnbondingHeight)
+		} else if !val.IsBonded() {
 			status = fmt.Sprintf("U%d", val.UnbondingHeight)
 		}
 		if val.IsJailed() {
@@ -222,7 +254,13 @@ func (w *world) dump() string {
 	for vi, v := range w.vals {
 		for d, a := range w.accs {
 			if u, err := app.StakingKeeper.GetUnbondingDelegation(ctx, a, v); err == nil && len(u.Entries) > 0 {
-				us = append(us, fmt.Sprintf("%d:%d:%d", d, vi, len(u.Entries)))
+				bal := sdkmath.ZeroInt()
+				var hs []string
+				for _, e := range u.Entries {
+					bal = bal.Add(e.Balance)
+					hs = append(hs, strconv.FormatInt(e.CreationHeight, 10))
+				}
+				us = append(us, fmt.Sprintf("%d:%d:%d:%s:%s", d, vi, len(u.Entries), bal, strings.Join(hs, "/")))
 			}
 		}
 	}
@@ -230,12 +268,21 @@ func (w *world) dump() string {
 		for di, dst := range w.vals {
 			for d, a := range w.accs {
 				if r, err := app.StakingKeeper.GetRedelegation(ctx, a, src, dst); err == nil && len(r.Entries) > 0 {
-					rds = append(rds, fmt.Sprintf("%d:%d:%d:%d", d, si, di, len(r.Entries)))
+					var hs []string
+					for _, e := range r.Entries {
+						hs = append(hs, strconv.FormatInt(e.CreationHeight, 10))
+					}
+					rds = append(rds, fmt.Sprintf("%d:%d:%d:%d:%s", d, si, di, len(r.Entries), strings.Join(hs, "/")))
 				}
 			}
 		}
 	}
 	fmt.Fprintf(&sb, " A(%s) G(%s) U(%s) Rd(%s)", strings.Join(al, ","), strings.Join(gs, ","), strings.Join(us, ","), strings.Join(rds, ","))
+	// bank side: the two staking pools, the distribution module account and the community pool (relative to genesis),
+	// coins burned (supply at genesis + coins minted by the harness - supply now)
+	supply := app.BankKeeper.GetSupply(ctx, fxtypes.DefaultDenom).Amount
+	fmt.Fprintf(&sb, " P(%s,%s,%s,%s,%s)", w.moduleBal(stakingtypes.BondedPoolName), w.moduleBal(stakingtypes.NotBondedPoolName),
+		w.moduleBal(distrtypes.ModuleName).Sub(w.distr0), decRaw(w.communityPool().Sub(w.comm0)), w.supply0.Add(w.minted).Sub(supply))
 	return sb.String()
 }
 
@@ -313,6 +360,8 @@ func kindOf(errText string, transferLike bool) string {
 }
 
 type snap struct {
+	pools    [3]sdkmath.Int // bonded pool, not-bonded pool, distribution module account
+	entries  string         // every unbonding-delegation and redelegation entry of the tracked accounts
 	digest   map[string]string
 	shares   map[[2]int]sdkmath.LegacyDec // (delegator, validator)
 	valTok   []sdkmath.Int
@@ -326,6 +375,19 @@ func (w *world) snapshot() snap {
 	for _, a := range w.accs {
 		sn.bals = append(sn.bals, w.s.App.BankKeeper.GetBalance(ctx, a, fxtypes.DefaultDenom).Amount)
 	}
+	sn.pools = [3]sdkmath.Int{w.moduleBal(stakingtypes.BondedPoolName), w.moduleBal(stakingtypes.NotBondedPoolName), w.moduleBal(distrtypes.ModuleName)}
+	var es []string
+	for _, a := range w.accs {
+		ubds, _ := w.s.App.StakingKeeper.GetUnbondingDelegations(ctx, a, 1000)
+		for _, u := range ubds {
+			es = append(es, u.String())
+		}
+		reds, _ := w.s.App.StakingKeeper.GetRedelegations(ctx, a, 1000)
+		for _, rd := range reds {
+			es = append(es, rd.String())
+		}
+	}
+	sn.entries = strings.Join(es, ";")
 	for _, name := range []string{stakingtypes.StoreKey, distrtypes.StoreKey, banktypes.StoreKey} {
 		d, _ := hx.DumpStore(ctx, w.s.App.GetKey(name))
 		sn.digest[name] = d
@@ -456,12 +518,32 @@ func (w *world) apply(line string) string {
 			w.violate("validator-set update at the end of the block failed: " + r)
 		}
 		w.s.Ctx = w.s.Ctx.WithBlockHeight(w.s.Ctx.BlockHeight() + 1).WithBlockTime(w.s.Ctx.BlockTime().Add(5 * time.Second))
+		w.syncHeaderInfo()
+	case "mature":
+		// the unbonding period passes, then the whole staking EndBlocker runs: validator-set update, validators whose
+		// unbonding period is over become Unbonded, every mature unbonding-delegation entry is paid back from the not-bonded
+		// pool, every mature redelegation entry is dropped
+		ut, err := app.StakingKeeper.UnbondingTime(w.s.Ctx)
+		if err != nil {
+			panic(err)
+		}
+		w.s.Ctx = w.s.Ctx.WithBlockTime(w.s.Ctx.BlockTime().Add(ut + time.Second))
+		w.syncHeaderInfo()
+		if r := hx.Try(func() error {
+			_, err := app.StakingKeeper.BlockValidatorUpdates(w.s.Ctx)
+			return err
+		}); r != "ok" {
+			w.violate("staking EndBlocker after the unbonding period failed: " + r)
+		}
+		w.s.Ctx = w.s.Ctx.WithBlockHeight(w.s.Ctx.BlockHeight() + 1).WithBlockTime(w.s.Ctx.BlockTime().Add(5 * time.Second))
+		w.syncHeaderInfo()
 	case "alloc":
 		a := ints(1)
 		amt := sdkmath.NewIntFromBigInt(bigOf(f[2]))
 		coin := sdk.NewCoin(fxtypes.DefaultDenom, amt)
 		funder := w.accs[len(w.accs)-1]
 		w.s.MintToken(funder, coin)
+		w.minted = w.minted.Add(amt)
 		if err := app.BankKeeper.SendCoinsFromAccountToModule(w.ctx(), funder, distrtypes.ModuleName, sdk.NewCoins(coin)); err != nil {
 			panic(err)
 		}
@@ -820,6 +902,9 @@ func (w *world) transferStats(before snap, kind string, from, to, v int, x *big.
 	if slashed {
 		w.out.Count("transfer-ok:validator-slashed-before")
 	}
+	if val, err := w.s.App.StakingKeeper.GetValidator(ctx, w.vals[v]); err == nil && val.IsUnbonded() {
+		w.out.Count("transfer-ok:validator-unbonded")
+	}
 	if val, err := w.s.App.StakingKeeper.GetValidator(ctx, w.vals[v]); err == nil && !val.IsBonded() {
 		w.out.Count("transfer-ok:validator-not-bonded")
 		if erf != nil && erf.Sign() > 0 {
@@ -1048,6 +1133,45 @@ func (w *world) checkTransfer(name string, before snap, kind string, from, to, v
 		w.violate(fmt.Sprintf("%s changed the validator: tokens %s -> %s, shares %s -> %s", name, before.valTok[v], after.valTok[v], before.valShare[v], after.valShare[v]))
 		return class
 	}
+	// the chain around the transfer: no tokens move between or out of the staking pools, no unbonding / redelegation
+	// record changes, nothing changes at any other validator, the distribution module account pays exactly what the two
+	// parties receive
+	if !after.pools[0].Equal(before.pools[0]) || !after.pools[1].Equal(before.pools[1]) {
+		w.violate(fmt.Sprintf("%s moved tokens of the staking pools: bonded %s -> %s, not bonded %s -> %s", name, before.pools[0], after.pools[0], before.pools[1], after.pools[1]))
+		return class
+	}
+	if after.entries != before.entries {
+		w.violate(name + " changed an unbonding-delegation or redelegation record")
+		return class
+	}
+	for vi := range w.vals {
+		if vi == v {
+			continue
+		}
+		if !after.valTok[vi].Equal(before.valTok[vi]) || !after.valShare[vi].Equal(before.valShare[vi]) {
+			w.violate(fmt.Sprintf("%s at validator %d changed validator %d", name, v, vi))
+			return class
+		}
+		for d := range w.accs {
+			if !before.sh(d, vi).Equal(after.sh(d, vi)) {
+				w.violate(fmt.Sprintf("%s at validator %d changed the delegation of account %d at validator %d: %s -> %s", name, v, d, vi, before.sh(d, vi), after.sh(d, vi)))
+				return class
+			}
+		}
+	}
+	received := sdkmath.ZeroInt()
+	for d := range w.accs {
+		diff := after.bals[d].Sub(before.bals[d])
+		if d != from && d != to && !diff.IsZero() {
+			w.violate(fmt.Sprintf("%s between accounts %d and %d changed the balance of account %d by %s", name, from, to, d, diff))
+			return class
+		}
+		received = received.Add(diff)
+	}
+	if paid := before.pools[2].Sub(after.pools[2]); !paid.Equal(received) {
+		w.violate(fmt.Sprintf("%s: the distribution module account paid %s, the two parties received %s", name, paid, received))
+		return class
+	}
 	if from == to {
 		if !after.sh(from, v).Equal(before.sh(from, v)) {
 			w.violate(fmt.Sprintf("%s with from == to changed the delegation: shares %s -> %s while validator shares stay %s (transfer to oneself must change nothing)",
@@ -1113,8 +1237,85 @@ func (w *world) checkPayouts(name, kind string, from, to, v int, erf, ert *big.I
 // generator
 
 type gen struct {
-	w   *world
-	rng *rand.Rand
+	w     *world
+	rng   *rand.Rand
+	queue []string // lines of a multi-step scenario still to be emitted
+}
+
+// allowanceRace: one owner, two spenders, one or two validators, everything within one block: both spenders are
+// approved for ALL of the owner's whole shares at each validator, the first moves most of them, the second tries to
+// move all (must be refused: the shares are gone, its allowance must stay), then moves exactly the remainder; the same
+// interleaved at a second validator when the owner delegates there too (allowances are per validator).
+func (g *gen) allowanceRace() []string {
+	w, r := g.w, g.rng
+	us := g.users()
+	if len(us) < 3 {
+		return nil
+	}
+	type pos struct {
+		v     int
+		whole *big.Int
+	}
+	var owner int = -1
+	var ps []pos
+	for _, o := range r.Perm(len(us)) {
+		ps = nil
+		for v := 0; v < w.nVal; v++ {
+			if wh := g.sharesOf(us[o], v).TruncateInt().BigInt(); wh.Cmp(big.NewInt(2)) >= 0 {
+				ps = append(ps, pos{v, wh})
+			}
+		}
+		if len(ps) > 0 {
+			owner = us[o]
+			break
+		}
+	}
+	if owner < 0 {
+		return nil
+	}
+	var others []int
+	for _, u := range us {
+		if u != owner {
+			others = append(others, u)
+		}
+	}
+	r.Shuffle(len(others), func(i, j int) { others[i], others[j] = others[j], others[i] })
+	s1, s2 := others[0], others[1]
+	to := others[r.Intn(len(others))]
+	if r.Intn(5) == 0 {
+		to = owner // the two parties coincide: nothing moves, the allowance is still consumed
+	}
+	if len(ps) > 2 {
+		ps = ps[:2]
+	}
+	var lines []string
+	for _, p := range ps {
+		lines = append(lines, fmt.Sprintf("approve %d %d %d %s", owner, s1, p.v, p.whole), fmt.Sprintf("approve %d %d %d %s", owner, s2, p.v, p.whole))
+	}
+	type mv struct {
+		v       int
+		first   *big.Int
+		whole   *big.Int
+		remains *big.Int
+	}
+	var ms []mv
+	for _, p := range ps {
+		k := new(big.Int).Rand(r, new(big.Int).Rsh(p.whole, 1)) // 0 … whole/2 - 1 stay behind
+		ms = append(ms, mv{p.v, new(big.Int).Sub(p.whole, k), p.whole, k})
+	}
+	for _, m := range ms {
+		lines = append(lines, fmt.Sprintf("transferFrom %d %d %d %d %s", s1, owner, to, m.v, m.first))
+	}
+	for _, m := range ms {
+		lines = append(lines, fmt.Sprintf("transferFrom %d %d %d %d %s", s2, owner, to, m.v, m.whole))
+	}
+	for _, m := range ms {
+		if m.remains.Sign() > 0 {
+			lines = append(lines, fmt.Sprintf("transferFrom %d %d %d %d %s", s2, owner, to, m.v, m.remains))
+		}
+	}
+	w.out.Count(fmt.Sprintf("scenario:allowance-race/validators=%d", len(ps)))
+	return lines
 }
 
 func (g *gen) users() []int {
@@ -1204,10 +1405,25 @@ func (g *gen) pickTo(from int) int {
 
 func (g *gen) next() string {
 	w, r := g.w, g.rng
+	if len(g.queue) > 0 {
+		l := g.queue[0]
+		g.queue = g.queue[1:]
+		return l
+	}
+	if r.Intn(30) == 0 {
+		if ls := g.allowanceRace(); len(ls) > 0 {
+			g.queue = ls[1:]
+			return ls[0]
+		}
+	}
 	us := g.users()
 	v := r.Intn(w.nVal)
 	hs := g.holders(v)
 	roll := r.Intn(100)
+	// the unbonding period passes (unbonding entries are paid back, redelegations complete, Unbonding -> Unbonded)
+	if r.Intn(45) == 0 {
+		return "mature"
+	}
 	// validator status changes: a validator with delegators leaves the active set (jailed) and may come back
 	if r.Intn(25) == 0 {
 		val, _ := w.s.App.StakingKeeper.GetValidator(w.ctx(), w.vals[v])
@@ -1338,11 +1554,47 @@ func (g *gen) next() string {
 	}
 }
 
+// genesisRoundTrip: the distribution state the history left behind (with the starting infos and reference counts
+// written by hand by handlerTransferShares) is a valid genesis: exported, the store wiped, imported again (InitGenesis
+// re-checks the module account against the outstanding rewards and the community pool) it gives the identical store —
+// a chain restarted from an export after share transfers keeps every delegator's reward entitlement.
+func (w *world) genesisRoundTrip() {
+	if w.dead {
+		return
+	}
+	cctx, _ := w.ctx().CacheContext()
+	key := w.s.App.GetKey(distrtypes.StoreKey)
+	before, n := hx.DumpStore(cctx, key)
+	r := hx.Try(func() error {
+		gs := w.s.App.DistrKeeper.ExportGenesis(cctx)
+		if err := distrtypes.ValidateGenesis(gs); err != nil {
+			return fmt.Errorf("exported distribution genesis does not validate: %w", err)
+		}
+		store := cctx.KVStore(key)
+		for _, kv := range hx.RawPrefix(cctx, key, nil) {
+			store.Delete(kv[0])
+		}
+		w.s.App.DistrKeeper.InitGenesis(cctx, *gs)
+		return nil
+	})
+	if r != "ok" {
+		w.violate("distribution genesis export / import after the history failed: " + r)
+		return
+	}
+	after, _ := hx.DumpStore(cctx, key)
+	if before != after {
+		w.violate("distribution store differs after a genesis export / import round trip (state written by share transfers is not restored identically)")
+		return
+	}
+	w.out.Count(fmt.Sprintf("genesis-roundtrip:distribution-ok/keys>=%d", n/10*10))
+}
+
 // finale: a new block, then every user withdraws and fully undelegates everywhere; each must succeed.
 func (w *world) finale(run func(string) string) {
 	if w.dead {
 		return
 	}
+	w.genesisRoundTrip()
 	run("block")
 	for d := range w.accs {
 		if !w.user(d) {
